@@ -315,20 +315,29 @@ pub fn c15_cells(tier: Tier) -> Vec<Value> {
                 x.snapshot_tail = true;
                 let mut c = bcfg(x, true, true, false);
                 c.fault_window = Some(if nb > 131000 { (131066, 131077) } else { (65530, 65541) });
-                // each execution replays the whole run-up (0.3 s at ws 16 ... 3 s at ws 1): budget the fault bound accordingly
+                // each execution replays the whole run-up (0.35 s at ws 16 ... 4 s at ws 1): budget the fault bound accordingly
+                let core = nb == 65535 || nb == 65536 || nb == 65537;
                 let f: u64 = match tier {
                     Tier::Quick => if ws == 5 && nb != 65537 { 0 } else { 1 },
                     Tier::Thorough => {
                         if ws == 16 && (nb == 65535 || nb == 65537) {
                             2
-                        } else if ws == 1 && !(nb == 65535 || nb == 65537) {
-                            0
-                        } else {
+                        } else if core && !(ws == 1 && nb == 65536) {
                             1
+                        } else if ws == 4 || ws == 16 {
+                            1
+                        } else {
+                            0
                         }
                     }
                 };
-                let shards = if f == 2 { 12 } else if f == 1 && tier == Tier::Thorough { 2 } else { 1 };
+                let shards = match (tier, f, ws) {
+                    (_, 2, _) => 12,
+                    (Tier::Thorough, 1, 1) => 6,
+                    (Tier::Thorough, 1, 2) | (Tier::Thorough, 1, 3) => 3,
+                    (Tier::Thorough, 1, _) => 2,
+                    _ => 1,
+                };
                 for sh in 0..shards {
                     let mut s = bspec(&c, f, &p);
                     s["shard"] = json!([sh, shards]);
